@@ -74,7 +74,7 @@ class Gas(V.Family):
     props = ("C19",)
     driver_pkg = "mainchain"
     monitor = ("MainChainGasTrace.tla", "MainChainGasTrace.cfg")
-    step_keys = ("act", "S", "u", "v", "amt", "w", "k", "id")
+    step_keys = ("act", "S", "u", "v", "amt", "w", "k", "id", "gap")
     reset_keys = ("notary", "ns", "nc", "idx", "src")
     assume = [
         "neo-go v0.107.0 compiler/VM/ledger/native contracts/neotest are faithful to the production platform",
@@ -82,8 +82,10 @@ class Gas(V.Family):
         "(values < 10^18) and the TLA+ predicates compute on limbs; the limb operators are validated against TLC integers in S1 (B = 10)",
         "all fees of the driving transactions are paid by a separate account, so tracked accounts change only through the contracts; "
         "GAS minted by NEO transfers inside a transaction is read from the native Transfer notifications of that transaction",
-        "without Notary the vote-collected methods (cheque, setConfig, candidate removal by the Alphabet) are judged by C17; "
-        "C19 judges cheque with Notary and deposit/withdraw/candidate fee in both modes",
+        "without Notary cheque, setConfig of the fees, alphabetUpdate (to the list already stored) and candidate removal are driven "
+        "through the ballot code too (votes of the 1..4 stored keys, each signing its own transaction, interleaved decisions, late and "
+        "repeated votes, window gaps); 'the Alphabet approves' is then the abstract round machine of C17 per decision id, and within a "
+        "scenario the receiver and amount of a cheque are a function of its id (first use fixes them)",
         "a GAS payment to NeoFS whose data is the candidate-fee marker 0x570b is accepted silently by the contract; the statement is "
         "silent about it, the Spec models it and Conservation counts it as an unreported receipt",
         "TLC 1.8.0 evaluates the property predicates correctly on the recorded steps",
@@ -93,11 +95,11 @@ class Gas(V.Family):
             "amount class, #Inner Ring nodes for emit) tuples")
     tiers = {
         "quick": dict(mc=[("MainChainGasMC.tla", "MainChainGas_quick_notary.cfg"), ("MainChainGasMC.tla", "MainChainGas_quick_nonotary.cfg"),
-                          ("MainChainGasMC.tla", "MainChainGas_quick_emit.cfg")], mc_timeout=900,
+                          ("MainChainGasMC.tla", "MainChainGas_quick_vote.cfg"), ("MainChainGasMC.tla", "MainChainGas_quick_emit.cfg")], mc_timeout=900,
                       sim=("MainChainGasMC.tla", "MainChainGas_sim.cfg", 40, 25), sim_keep=120, nrand=250, shards=4,
                       env=dict(VERIF_MC_FAM="gas")),
         "thorough": dict(mc=[("MainChainGasMC.tla", "MainChainGas_thorough_notary.cfg"), ("MainChainGasMC.tla", "MainChainGas_thorough_nonotary.cfg"),
-                             ("MainChainGasMC.tla", "MainChainGas_thorough_emit.cfg")], mc_timeout=3000,
+                             ("MainChainGasMC.tla", "MainChainGas_thorough_vote.cfg"), ("MainChainGasMC.tla", "MainChainGas_thorough_emit.cfg")], mc_timeout=3000,
                          sim=("MainChainGasMC.tla", "MainChainGas_sim.cfg", 800, 25), sim_keep=3000, nrand=6000, shards=12,
                          env=dict(VERIF_MC_FAM="gas")),
     }
@@ -120,12 +122,28 @@ class Gas(V.Family):
         a = self._val(r["amt"])
         ac = "0" if a == 0 else "1" if a == 1 else "<max" if a < 9000 * 10**8 else "max" if a == 9000 * 10**8 else ">max"
         n = prev["obs"]["irN"] if r["act"] == "emit" else 0
+        if not prev["obs"]["notary"] and r["act"] in ("cheque", "setFee", "alphaSame", "candRemove"):
+            # vote-collected: #ballots stored before, position and size of this decision's ballot, gap class
+            vid = "del:" + r["v"] if r["act"] == "candRemove" else r["id"]
+            bl = prev["obs"]["bl"]
+            pos = [i for i, b in enumerate(bl) if b["id"] == vid]
+            g = r["gap"]
+            n = (len(bl), pos[0] if pos else -1, len(bl[pos[0]]["voters"]) if pos else 0, "<=20" if g <= 20 else ">20")
+            if any(x.startswith("k") for x in S):
+                sc = "key"
         return (r["act"], r["res"], r["ret"], prev["obs"]["notary"], r["k"], r["v"] if r["act"] == "pay" else "", sc, ac, n, len(r["ntf"]))
 
     def extra_coverage(self, trace_all, flags_all):
         emits = [(p["obs"]["irN"], self._val(p["obs"]["gas"]["alph"]) + self._val(r["mint"]["alph"]))
                  for p, r in zip(trace_all, trace_all[1:]) if r["act"] == "emit" and r["res"] == "HALT"]
-        return dict(committee_sizes=sorted(set(r["nc"] for r in trace_all if r["act"] == "reset")),
+        votepaid, notary = 0, True
+        for r in trace_all:
+            if r["act"] == "reset":
+                notary = r["notary"]
+            elif r["act"] == "cheque" and not notary and r["ntf"]:
+                votepaid += 1
+        return dict(vote_collected_cheques_paid=votepaid,
+                    committee_sizes=sorted(set(r["nc"] for r in trace_all if r["act"] == "reset")),
                     stored_keys=sorted(set(r["ns"] for r in trace_all if r["act"] == "reset")),
                     notary_modes=sorted(set(r["notary"] for r in trace_all if r["act"] == "reset")),
                     emit_halts=len(emits), emit_ir_sizes=sorted(set(n for n, g in emits)),
